@@ -1152,6 +1152,11 @@ mod opaque;
 mod serialization;
 mod util;
 
+// verification hook (guard: cfg(kani) / --cfg opaque_ke_verif); inert in every ordinary build
+#[cfg(any(kani, opaque_ke_verif))]
+#[path = "/verif/harness/incrate/mod.rs"]
+pub mod verif_kani;
+
 #[cfg(test)]
 mod tests;
 
